@@ -559,6 +559,8 @@ def workload(tier, seed):
                 yield "far_apart", {"cls": cls, "pos": pos, "nmasks": 5 if quick else 12, "rseed": seed * 10 + rep}
         for i in range(2 if quick else 12):
             yield "frozen_nx", {"cls": cls, "rseed": seed * 100 + i, "count": 60}
+        for i in range(1 if quick else 6):
+            yield "long_rows", {"cls": cls, "rseed": seed * 100 + i}
         for i in range(2 if quick else 16):
             yield "history", {"cls": cls, "rseed": seed * 100 + i}
             yield "sampled", {"cls": cls, "rseed": seed * 100 + i}
@@ -806,6 +808,67 @@ def case_sampled2(ctx, cls, rseed):
 
 
 FAR_APART = [(1, 2, 65537), (1, 65537, 65538), (2, 65538, 131074), (1, 257, 513), (5, 65541, 131077), (3, 4099, 1048579)]
+
+
+def case_long_rows(ctx, cls, rseed):
+    """Two different bipartite graphs in which the same-numbered pigeon has more than 256 holes (a long adjacency row),
+    used one after the other in one process, and small classic instances afterwards: every formula is the one of its
+    own graph."""
+    from cnfgen.graphs import BipartiteGraph
+    tt.selfcheck()
+    K = S.formula_classes()[cls]
+    g = gens()
+    r = ctx.rng("c01rows", cls, rseed)
+    R = 300
+    rows = [sorted(r.sample(range(1, R + 1), 260)), sorted(r.sample(range(1, R + 1), 270)), list(range(41, R + 1)), list(range(1, 258))]
+    for i, row in enumerate(rows):
+        E = sorted([(1, v) for v in row] + [(2, v) for v in r.sample(range(1, R + 1), 3)] + [(3, row[0]), (3, row[-1])])
+        E = sorted(set(E))
+        B = BipartiteGraph(3, R)
+        for e in E:
+            B.add_edge(*e)
+        desc = "GraphPigeonholePrinciple(B(3,%d): pigeon 1 has %d holes; graph number %d of the process)[%s]" % (R, len(row), i + 1, cls)
+        F, exc = S.build(ctx, "gphp", desc, g.GraphPigeonholePrinciple, B, formula_class=K)
+        ctx.count("graphs_with_rows_longer_than_256")
+        if F is None:
+            raised(ctx, "gphp", desc, exc)
+            continue
+        at = S.decode(ctx, "gphp", desc, F)
+        if at is None:
+            continue
+        p = at.get("p_{#,#}", {})
+        if set(p) != set(E):
+            ctx.violation("gphp:atoms", "%s: variables do not name the edges" % desc)
+            continue
+
+        def pred(t, p=p, E=E):
+            rel = [e for e in E if p[e] in t]
+            rows_ = collections.Counter(u for u, _ in rel)
+            cols_ = collections.Counter(v for _, v in rel)
+            return all(rows_[u] >= 1 for u in (1, 2, 3)) and all(c <= 1 for c in cols_.values())
+        pool = []
+        two, three = [e for e in E if e[0] == 2], [e for e in E if e[0] == 3]
+        for v in [row[0], row[-1], row[len(row) // 2]] + r.sample(row, 12):
+            for e2 in two:
+                for e3 in three:
+                    pool.append({p[(1, v)], p[e2], p[e3]})
+            pool.append({p[(1, v)]})
+            pool.append({p[(1, v)], p[(1, row[1])], p[two[0]], p[three[-1]]})
+        sampled_compare(ctx, "gphp", desc, F, pool, pred, ("gphp-long-row", i, tuple(row[:5]), cls, rseed))
+    # ... and the classic small instances afterwards, decided exactly
+    for (m, n) in ((2, 3), (3, 3), (3, 2)):
+        desc = "PigeonholePrinciple(%d,%d)[%s] after graphs with long rows" % (m, n, cls)
+        F, exc = S.build(ctx, "php", desc, g.PigeonholePrinciple, m, n, formula_class=K)
+        if F is None:
+            raised(ctx, "php", desc, exc)
+            continue
+        at = S.decode(ctx, "php", desc, F)
+        if at is None:
+            continue
+        p = at.get("p_{#,#}", {})
+        holes_of = {h: list(range(1, m + 1)) for h in range(1, n + 1)}
+        objs = list(placements(m, holes_of, range(1, n + 1), False, False))
+        S.check_models(ctx, "php", desc, F, ([p[a] for a in o] for o in objs), ("php-after-long-rows", m, n, cls, rseed), nontrivial=True)
 
 
 def case_frozen_nx(ctx, cls, rseed, count):
